@@ -357,9 +357,17 @@ pub fn build(e: &mut Ent, o: &Opts) -> ElfSpec {
             be32(&mut symdata, idx);
             be32(&mut symdata, *val);
             be32(&mut symdata, e.below(0x100));
-            symdata.push(e.u8());
-            symdata.push(0);
-            be16(&mut symdata, e.u16());
+            // st_info (binding / type), st_other (visibility), st_shndx: nothing the statement makes the start
+            // environment depend on - generated over their whole range, the reserved section indices
+            // (SHN_UNDEF, SHN_ABS, SHN_COMMON, SHN_XINDEX, the LORESERVE / processor ranges) as often as ordinary ones
+            symdata.push(if e.chance(1, 2) { e.u8() } else { (e.pick(&[0u8, 1, 2]) << 4) | e.pick(&[0u8, 1, 2, 3, 4]) });
+            symdata.push(if e.chance(1, 2) { 0 } else { e.u8() });
+            let shndx = match e.below(3) {
+                0 => e.pick(&[0u16, 0xfff1, 0xfff2, 0xffff, 0xff00, 0xff1f, 0xff20, 0xff3f, 0xfff0]),
+                1 => e.below(12) as u16,
+                _ => e.u16(),
+            };
+            be16(&mut symdata, shndx);
         }
         let mut st = mk(".symtab", 2, 0, symdata.len() as u32, Some(symdata));
         st.entsize = 16;
